@@ -51,7 +51,7 @@ def fmt_problem(v):
         for i in range(lo, min(len(evs), m + 3)):
             out.append(("  ok  " if i < m else "  ??  ") + fmt_ev(evs[i]))
         out.append("  spec state before the unmatched event: " + v["spec_state"][:1800])
-    for k in ("outcomes", "impl_outcomes", "errors", "detail", "stderr"):
+    for k in ("outcomes", "impl_outcomes", "witness", "divergence", "errors", "detail", "stderr"):
         if k in v:
             out.append(f"  {k}: " + json.dumps(v[k])[:1500])
     return "\n".join(out)
@@ -132,8 +132,9 @@ def family_pipeline(fam, progs, outdir, cap=20000, do_mc=True, workers=8, max_di
         impl_outs = vlib.impl_outcomes(meta)
         capped = {m["prog"] for m in meta if m.get("capped")}
         n_spec = n_impl = miss_impl = miss_spec = 0
+        idx_of = {p["id"]: i for i, p in enumerate(progs)}
         for pid, p in by_id.items():
-            so = spec_outs.get(pid, set())
+            so = set(spec_outs.get(pid, {}).keys())
             io = impl_outs.get(pid, set())
             n_spec += len(so)
             n_impl += len(io)
@@ -146,9 +147,25 @@ def family_pipeline(fam, progs, outdir, cap=20000, do_mc=True, workers=8, max_di
                 lost = so - io
                 if lost:
                     miss_impl += len(lost)
-                    problems.append({"kind": "outcome-missing-in-impl", "prog": p, "outcomes": sorted(lost)[:3],
-                                     "impl_outcomes": sorted(io)[:6],
-                                     "sig": f"{fam}/outcome/spec-not-in-impl"})
+                    # binding C: drive the runtime along the specification's witness and name the
+                    # first point at which it cannot follow
+                    by_sig = {}
+                    for o in sorted(lost)[:4]:
+                        wit = spec_outs[pid][o]
+                        rep = vlib.run_directed(os.path.join(outdir, "progs.ndjson"), idx_of[pid], wit)
+                        sig = vlib.divergence_signature(rep)
+                        d = rep.get("divergence") or {}
+                        if d.get("kind") == "not-offered":
+                            c, pc = d["want"][0], d["want"][1]
+                            code = p["tasks"][c]
+                            sig = f"needed-task-not-offered({code[pc-1]['k'] if pc <= len(code) else 'exit'})"
+                        by_sig.setdefault(sig, []).append({"outcome": o, "witness": wit, "divergence": rep.get("divergence")})
+                    for sig, items in by_sig.items():
+                        problems.append({"kind": "outcome-missing-in-impl", "prog": p,
+                                         "outcomes": [it["outcome"] for it in items][:3],
+                                         "witness": items[0]["witness"], "divergence": items[0]["divergence"],
+                                         "impl_outcomes": sorted(io)[:6],
+                                         "sig": f"incomplete/{sig}"})
         summary.update({"mc_states": mres["states"], "mc_transitions": mres["transitions"],
                         "spec_outcomes": n_spec, "impl_outcomes": n_impl,
                         "outcomes_missing_in_impl": miss_impl, "outcomes_missing_in_spec": miss_spec,
@@ -166,6 +183,15 @@ def F(fam, q, t, mc=True):
 
 
 SHUTTLE_PROPS = {
+    # completeness: every outcome of the all-interleavings model must be produced by some schedule
+    "C02": {"stages": [F("kernel", 14, 150), F("mutex", 14, 120), F("rwlock", 16, 150), F("atomic", 20, 200),
+                       F("condvar", 18, 200), F("park", 20, 150), F("barrier", 20, 150), F("barrier_reuse", 12, 100),
+                       F("once", 16, 150), F("mpsc", 30, 300), F("mpsc_drop", 30, 300), F("sem_unfair", 20, 200),
+                       F("sem_fair", 20, 200), F("corpus_deadlock", 0, 0), F("corpus_locks", 0, 0),
+                       F("corpus_sync", 0, 0), F("corpus_mpsc", 0, 0)],
+            "kinds": {"outcome-missing-in-impl", "harness-crash", "tlc-error"},
+            "assume": ["outcome = per-thread results + termination kind + unfinished set; spurious park wake-ups are not part of outcome sets",
+                       "programs whose runtime tree exceeds the execution cap are compared in the impl-in-spec direction only"]},
     "C03": {"stages": [F("mutex", 14, 120), F("condvar", 14, 120), F("park", 20, 150), F("mpsc", 14, 120),
                        F("corpus_deadlock", 0, 0)],
             "assume": ["termination oracle = derived Status (DESIGN 4.1); tasks<=3, ops<=3 (quick)"]},
@@ -264,7 +290,7 @@ def run_property(pid, tier):
             if isinstance(v, (int, float)) and k not in ("wall",) and not k.startswith("t_"):
                 totals[k] = totals.get(k, 0) + v
         for pr in r["problems"]:
-            if pr["kind"] in OWN_KINDS:
+            if pr["kind"] in spec.get("kinds", OWN_KINDS):
                 problems.append(pr)
         if r.get("sample"):
             samples.append({"family": st["fam"], "program": progs[-1], "trace": r["sample"]})
